@@ -1,0 +1,43 @@
+//go:build verif
+// +build verif
+
+package rtree
+
+import "github.com/ctessum/geom"
+
+// VerifNode is a read-only copy of one node of the tree, exported only under
+// the verif build tag so that an external checker can evaluate the balance,
+// envelope and fan-out invariants after every operation.
+type VerifNode struct {
+	Level    int
+	Leaf     bool
+	ParentOK bool          // the node's parent link points at the node it was reached from (nil for the root)
+	Boxes    []geom.Bounds // the box stored in every entry
+	Children []*VerifNode  // non-leaf nodes: the child of every entry
+	Objs     []geom.Geom   // leaf nodes: the object of every entry
+}
+
+// VerifSnapshot returns a copy of the node structure and the private height.
+func (tree *Rtree) VerifSnapshot() (*VerifNode, int) {
+	return verifCopy(tree.root, nil), tree.height
+}
+
+func verifCopy(n *node, parent *node) *VerifNode {
+	if n == nil {
+		return nil
+	}
+	v := &VerifNode{Level: n.level, Leaf: n.leaf, ParentOK: n.parent == parent}
+	for _, e := range n.entries {
+		if e.bb != nil {
+			v.Boxes = append(v.Boxes, *e.bb)
+		} else {
+			v.Boxes = append(v.Boxes, geom.Bounds{})
+		}
+		if n.leaf {
+			v.Objs = append(v.Objs, e.obj)
+		} else {
+			v.Children = append(v.Children, verifCopy(e.child, n))
+		}
+	}
+	return v
+}
